@@ -80,7 +80,7 @@ func (c CfgSpec) text(extra string) string {
 			b.WriteString("  auth hmac raw:k2\n")
 		case "fwd200", "fwd401":
 			live, _ := fwdServer()
-			fmt.Fprintf(&b, "  auth forward %s {\n    timeout 500ms\n  }\n", q(live+"/b/"+strings.TrimPrefix(s.Auth, "fwd")))
+			fmt.Fprintf(&b, "  auth forward %s {\n    timeout 5s\n  }\n", q(live+"/b/"+strings.TrimPrefix(s.Auth, "fwd")))
 		}
 		pp := s.Pull
 		if pp == "" {
@@ -270,6 +270,17 @@ func genC18Case() *rapid.Generator[C18Case] {
 	})
 }
 
+func usesForward(specs ...CfgSpec) bool {
+	for _, c := range specs {
+		for _, sl := range c.Slots {
+			if sl.On && strings.HasPrefix(sl.Auth, "fwd") {
+				return true
+			}
+		}
+	}
+	return false
+}
+
 func answersDiff(a, b []string) int {
 	n := 0
 	for i := range a {
@@ -381,6 +392,10 @@ func runC18(c C18Case, tolerate bool) *fOutcome {
 		vRef2 := runBattery(refOld, "t2")
 		vAfter := runBattery(w, "t2")
 		for i := range vAfter {
+			if (vAfter[i] == "503" || vRef2[i] == "503") && usesForward(c.Old, c.New) {
+				out.Labels["forward-callout-timed-out"] = true
+				continue
+			}
 			if vAfter[i] != vRef2[i] {
 				out.Failure = ffail("C18", "failed-reload-changed-behaviour", i, "after a failed reload (%s) probe %q answers %s, an untouched process answers %s (before: %s)", c.Fail, names[i], vAfter[i], vRef2[i], vBefore[i])
 				return out
@@ -418,6 +433,10 @@ func runC18(c C18Case, tolerate bool) *fOutcome {
 			out.Labels["configs-differ-in-battery"] = true
 		}
 		for i := range vMid {
+			if (vMid[i] == "503" || vOld[i] == "503" || vNew[i] == "503") && usesForward(c.Old, c.New) {
+				out.Labels["forward-callout-timed-out"] = true
+				continue
+			}
 			if vMid[i] != vOld[i] && vMid[i] != vNew[i] {
 				f := ffail("C18", "mixed-configuration", i, "at %s probe %q answers %s; entirely-old answers %s, entirely-new answers %s\nold:\n%s\nnew:\n%s", c.Pause, names[i], vMid[i], vOld[i], vNew[i], oldText, newText)
 				if c.Pause == "reload.after-loadauth" || c.Pause == "state.write-unlocked" {
@@ -435,6 +454,10 @@ func runC18(c C18Case, tolerate bool) *fOutcome {
 		vAfter := runBattery(w, "t2")
 		vNew2 := runBattery(refNew, "t2")
 		for i := range vAfter {
+			if (vAfter[i] == "503" || vNew2[i] == "503") && usesForward(c.Old, c.New) {
+				out.Labels["forward-callout-timed-out"] = true
+				continue
+			}
 			if vAfter[i] != vNew2[i] {
 				// the in-reload battery may have consumed/queued differently than the reference; only
 				// status classes that do not depend on queue contents are compared strictly
@@ -498,6 +521,11 @@ func runC18(c C18Case, tolerate bool) *fOutcome {
 			}
 			out.Labels["reload-inside-request"] = true
 			o, n := strings.SplitN(vOld[i], "+", 2)[0], strings.SplitN(vNew[i], "+", 2)[0]
+			if ans == "503" && usesForward(c.Old, c.New) {
+				// a forward-auth callout that did not answer in time fails closed: load, not a mixture
+				out.Labels["forward-callout-timed-out"] = true
+				continue
+			}
 			if ans != o && ans != n {
 				f := ffail("C18", "request-mixed-configuration", i, "request %q whose body read spans the reload answers %s; entirely-old answers %s, entirely-new answers %s\nold:\n%s\nnew:\n%s", p.name, ans, o, n, oldText, newText)
 				f.Sig = "request-spans-reload-mixture"
